@@ -125,6 +125,18 @@ CHECKS["C20"] = dict(
     technique="TLA+ history spec enumerated exhaustively by TLC; histories replayed into the implementation",
 )
 
+CHECKS["C16"] = dict(
+    category="model_checking",
+    text="ReactionGraph.tla defines the reaction graph as an operator of the instance built from the same Law / TransLaw / Compatible as the generation machine. "
+         "TLC checks on every reachable state of the machine (RGCheck = GenerateMC + ReactionGraph) that the law at every partner / listed / capping / hand-over decision "
+         "IS the out-edge set of the chosen descriptor's node (GraphAgrees), plus normalisation and compatibility of weight edges; the graph is exported and compared node by "
+         "node and edge by edge (kind, target, probability) with Molecule.gen_reaction_graph() for the instance library and seeded archetypes. Three known causes of "
+         "discrepancy in the unchanged code are recorded as known findings and matched only when their cause is verified on the instance.",
+    design_ref="DESIGN.md 4/C16",
+    note="Trusted: TLC; node identification through Molecule._elements. Edges of probability zero are ignored on both sides.",
+    technique="TLA+ spec (graph as operator + invariant tying it to the generation machine) model-checked with TLC; exported graph compared with the implementation's",
+)
+
 PENDING_REASON = "check not built yet in this round (design in DESIGN.md); no claim is made"
 
 
